@@ -11,5 +11,8 @@ CLAIMS = {
              note='trusted: z3, pysym, the reference algorithm and pinned RNTABLE in vf/checks/c07.py (compared with the repository copies at run time)'),
  'C04': dict(text='bounded proof: (a) every octet produced by gen_msg() for each of the 26 valid message shapes equals the protocol layout term for all field values and bits; (b) fully symbolic datagrams of each length: parse_msg() either raises ValueError (only for the documented reasons) or yields fields equal to the layout reading of the octets.',
              note='trusted: z3, pysym models, the layout transcribed in vf/checks/common.py'),
+
+ 'C17': dict(text='bounded proof: each PDU definition (v0/v1/v2, Rx/Tx, batched parts) is executed symbolically through codec.py: encode(vals) equals the documented octet layout for all field values; decode(encode(v)) == v; reserved bits ignored; wrong version nibble rejected for every other nibble value; burst length per modulation code; the octets produced by data_msg.gen_msg() for every v0/v1 shape (incl. legacy padding) decode to identical values.',
+             note='trusted: z3, pysym models (int.from_bytes/to_bytes, join), layouts transcribed in vf/checks/c17.py; sub-PDU count <= 2 quick / <= 8 thorough'),
 }
 NOT_APPLICABLE = {}
